@@ -93,9 +93,6 @@ theorem walkMatch_depth (l : LocusV) (r : ReadV) (size : Nat) (s : WalkState) (p
         exact ind_step s.start p k
   exact key size s
 
-/-- reference bases consumed by one CIGAR operation, as the walk sees it -/
-def consumes (op size : Nat) : Nat := if op == 2 || Const.PARSE_MATCH_OPS.contains op then size else 0
-
 theorem opIsIns_ins (cs : List Char) : opIsIns ("ins" ++ strOf cs) = true := by
   simp [opIsIns, strOf, String.toList_append, String.toList_ofList]
 
